@@ -43,8 +43,19 @@ fn err_class(e: &str) -> String {
     out
 }
 
+/// Pattern-template cases carry a tag `@pattern=<Template>;knobs=<...>` as the
+/// first op_types entry; it is appended to the signature so that a known
+/// finding names the template and the perturbation, not just the fused op.
+fn tag_of(built: &Built) -> String {
+    match built.op_types.first() {
+        Some(t) if t.starts_with('@') => format!(":{t}"),
+        _ => String::new(),
+    }
+}
+
 fn oracle(profile: &Profile, c: &Case) -> Verdict {
     let built = c.build(profile);
+    let tag = tag_of(&built);
     let bytes = built.model.encode();
     let base_model = match vcore::catch(|| Config::Plain.load(&bytes)) {
         Ok(Ok(m)) => m,
@@ -67,13 +78,13 @@ fn oracle(profile: &Profile, c: &Case) -> Verdict {
                     continue;
                 }
                 return Verdict::fail(
-                    format!("load-failed:{}:{}", cfg.name(), err_class(&e)),
+                    format!("load-failed:{}:{}{tag}", cfg.name(), err_class(&e)),
                     format!("unoptimised model loads and runs, but {} fails to load: {e}; ops={:?}", cfg.name(), built.op_types),
                 );
             }
             Err(p) => {
                 return Verdict::fail(
-                    format!("load-panic:{}:{}", cfg.name(), p.signature()),
+                    format!("load-panic:{}:{}{tag}", cfg.name(), p.signature()),
                     format!("{} load panicked: {} at {}; ops={:?}", cfg.name(), p.msg, p.loc(), built.op_types),
                 )
             }
@@ -86,13 +97,13 @@ fn oracle(profile: &Profile, c: &Case) -> Verdict {
             Ok(Ok(o)) => o,
             Ok(Err(e)) => {
                 return Verdict::fail(
-                    format!("run-failed:{}:{}", diff.join(","), err_class(&e)),
+                    format!("run-failed:{}:{}{tag}", diff.join(","), err_class(&e)),
                     format!("unoptimised run succeeds but {} run fails: {e}; optimiser changes {:?}; ops={:?}", cfg.name(), diff, built.op_types),
                 )
             }
             Err(p) => {
                 return Verdict::fail(
-                    format!("run-panic:{}:{}", diff.join(","), p.signature()),
+                    format!("run-panic:{}:{}{tag}", diff.join(","), p.signature()),
                     format!("{} run panicked: {} at {}; optimiser changes {:?}", cfg.name(), p.msg, p.loc(), diff),
                 )
             }
@@ -100,7 +111,7 @@ fn oracle(profile: &Profile, c: &Case) -> Verdict {
         for ((name, b), o) in built.outputs.iter().zip(&base).zip(&outs) {
             if let Err(why) = compare(b, o, TOL) {
                 return Verdict::fail(
-                    format!("mismatch:{}", diff.join(",")),
+                    format!("mismatch:{}{tag}", diff.join(",")),
                     format!(
                         "output {name} differs between opt-off and {}: {why}; optimiser changes {:?}; ops={:?}",
                         cfg.name(),
@@ -163,7 +174,49 @@ fn main() {
     ck.prop_export("grammar-general", n, || raw_graph(3, 14).prop_map(GraphCase::Raw), |c| oracle(&profile, c), |c| c.export(&profile));
     let profile2 = Profile::inplace_biased();
     ck.prop_export("grammar-elementwise", n / 2, || raw_graph(3, 10).prop_map(GraphCase::Raw), |c| oracle(&profile2, c), |c| c.export(&profile2));
+    // Shape arithmetic on symbolic dims that are instantiated to 0 / 1: the
+    // regime where shape inference folds comparisons and arithmetic on dims.
+    let profile3 = {
+        use Family::*;
+        Profile {
+            families: vec![
+                (6, Shape), (8, ShapeArith), (3, Where), (2, Cast), (2, Compare), (2, Reshape), (2, Expand), (2, ConstantOfShape),
+                (2, UnaryF), (2, BinaryF), (1, Concat), (1, Slice), (1, Gather), (1, Unsqueeze), (1, Squeeze), (1, Reduce), (1, Identity),
+            ],
+            ..Profile::general()
+        }
+    };
+    ck.prop_export(
+        "shape-arith-zero-dims",
+        n / 2,
+        || {
+            (raw_graph(3, 10), any::<[u8; 12]>()).prop_map(|(mut raw, z)| {
+                // make many input dims symbolic and a good share of them empty or 1
+                for (k, inp) in raw.inputs.iter_mut().enumerate() {
+                    inp.sym |= z[k % 12] | 0x0f;
+                    if inp.rank == 0 {
+                        inp.rank = 1 + z[(k + 3) % 12] % 3;
+                    }
+                    for d in 0..4 {
+                        match z[(k * 4 + d) % 12] % 4 {
+                            0 => inp.dims[d] = 230, // size 0
+                            1 => inp.dims[d] = 0,   // size 1
+                            _ => {}
+                        }
+                    }
+                }
+                GraphCase::Raw(raw)
+            })
+        },
+        |c| oracle(&profile3, c),
+        |c| c.export(&profile3),
+    );
+    // Fusion-pattern templates with perturbation knobs (vc-patterns): every
+    // fusion of src/optimize/fusions.rs just inside / just outside its
+    // legality conditions.
+    let n_pat = ck.pick(6000, 200_000);
+    ck.prop("fusion-patterns", n_pat, || vc_patterns::pattern_graph_case(), |c| oracle(&profile, c));
     ck.finish();
 }
 
-use proptest::strategy::Strategy;
+use proptest::prelude::*;
